@@ -6,7 +6,7 @@
 From Coq Require Import Permutation.
 From DivanV Require Import Base.Res Model.Registry Model.Tree Model.Driver
   Proofs.TreeBase Proofs.DriverExec Proofs.DriverC14 Proofs.TreeLeaves Proofs.Flat Proofs.FlatBridge Proofs.Expand
-  Proofs.TreeEquiv Proofs.ListView.
+  Proofs.TreeEquiv Proofs.ListView Model.ListPush Proofs.ListPush.
 Local Open Scope N_scope.
 
 (** The leaves of the tree are the registered entries — each exactly once, under
@@ -152,6 +152,47 @@ Theorem C12_same_name_generic_both_set :
   runs_id 1 (exec_forest cfg_plain [] None (build_tree [] [s_second_set; s_first])) = false.
 Proof. exact same_name_generic_both_set. Qed.
 Print Assumptions C12_same_name_generic_both_set.
+
+(** The registration lists themselves ([EntryList::push], a lock-free push with the
+    store into the new node's [next] field inside the CAS retry loop): for any number
+    of overlapping pushes of distinct fresh nodes, every interleaving of their memory
+    accesses and any spurious CAS failures, once all pushes have returned the list
+    read from the head is the pushed nodes — each exactly once — followed by the
+    initial list. *)
+Theorem C12_push_linearizable : forall ops L0,
+  (forall i, In i ops -> ~ In i L0) ->
+  forall h next sched,
+  NoDup ops -> spells next h L0 -> NoDup L0 ->
+  Forall (fun x => In (fst x) ops) sched ->
+  let s := push_run (push_init h next) sched in
+  (forall i, In i ops -> l_pc s i = PDone) ->
+  exists D, Permutation D ops /\ NoDup (D ++ L0) /\
+            forall fuel, (length (D ++ L0) <= fuel)%nat -> walk fuel (l_next s) (l_head s) = D ++ L0.
+Proof. exact push_linearizable. Qed.
+Print Assumptions C12_push_linearizable.
+
+(** ... and at every moment in between it spells exactly the finished pushes and the initial list. *)
+Theorem C12_push_always_consistent : forall ops L0,
+  (forall i, In i ops -> ~ In i L0) ->
+  forall h next sched,
+  spells next h L0 -> NoDup L0 -> Forall (fun x => In (fst x) ops) sched ->
+  let s := push_run (push_init h next) sched in
+  exists D, (forall i, In i D <-> In i ops /\ l_pc s i = PDone) /\ NoDup (D ++ L0) /\ spells (l_next s) (l_head s) (D ++ L0).
+Proof. exact push_always_consistent. Qed.
+Print Assumptions C12_push_always_consistent.
+
+(** With the store hoisted out of the retry loop two overlapping pushes lose a node. *)
+Theorem C12_push_hoisted_store_refuted :
+  let s := fold_left bad_step [1; 2; 2; 1; 1] (push_init None (fun _ => None)) in
+  l_pc s 1 = PDone /\ l_pc s 2 = PDone /\ walk 5 (l_next s) (l_head s) = [1].
+Proof. exact hoisted_store_loses_a_node. Qed.
+Print Assumptions C12_push_hoisted_store_refuted.
+
+Theorem C12_push_hypotheses_satisfiable :
+  let s := push_run (push_init (Some 7) (fun _ => None)) [(1, false); (2, false); (2, false); (2, false); (1, false); (1, false); (1, false); (1, false)] in
+  l_pc s 1 = PDone /\ l_pc s 2 = PDone /\ walk 5 (l_next s) (l_head s) = [1; 2; 7].
+Proof. exact push_example. Qed.
+Print Assumptions C12_push_hypotheses_satisfiable.
 
 (** Macro level: one [#[divan::bench]] registers nothing for exclusively empty
     [types]/[consts]; one [BenchEntry] without generics; otherwise one
